@@ -14,7 +14,7 @@ import re
 from fractions import Fraction
 from typing import Dict, List, Optional, Tuple
 
-from ..cfg import (cguards_of, ctext, branches, CFG, enum_paths, call_name, attr_chain, walk_no_nested, parents_map,
+from ..cfg import (canon_test, cguards_of, ctext, branches, CFG, enum_paths, call_name, attr_chain, walk_no_nested, parents_map,
                    guards_of, const_int, names_loaded)
 from ..core import AnalysisError, Ctx, Func, norm
 from ..poly import Poly, poly_of
@@ -51,6 +51,7 @@ def run(ctx: Ctx):
     r13_3(ctx)
     r13_4(ctx)
     r13_5(ctx)
+    r13_6(ctx)
 
 
 # ---------------------------------------------------------------------------
@@ -1061,3 +1062,102 @@ def r13_5(ctx: Ctx):
             good = False
     ctx.ob("R13.5", wl, incs[0] if incs else "record counter", good and bool(incs),
            "the written-record counter advances exactly once per record written", node=incs[0] if incs else wl.node)
+
+
+# ---------------------------------------------------------------------------
+# R13.6 the title travels unchanged (setter -> header writer -> reader)
+# ---------------------------------------------------------------------------
+_CHANGING = {"strip", "lstrip", "rstrip", "lower", "upper", "title", "capitalize", "swapcase", "casefold", "expandtabs",
+             "replace", "split", "join", "format", "center", "ljust", "rjust", "zfill", "translate", "encode", "partition",
+             "rpartition", "splitlines"}
+
+
+def _title_expr_kind(e: ast.AST, param: str, guards) -> str:
+    """'same' (the value given), 'less-newline' (one trailing newline removed, which the writer adds back),
+    'changed' (provably another text for some title), '?'"""
+    from ..cfg import conjuncts
+    if isinstance(e, ast.Name) and e.id == param:
+        return "same"
+    gl = [x for t_, p_ in guards for x in conjuncts(t_, p_)]
+    ends_nl = any(g in (ctext("%s[-1] == '\\n'" % param), ctext("%s.endswith('\\n')" % param)) for g in gl)
+    if isinstance(e, ast.Subscript) and isinstance(e.value, ast.Name) and e.value.id == param and isinstance(e.slice, ast.Slice):
+        sl = e.slice
+        if sl.lower is None and sl.step is None and const_int(sl.upper) == -1:
+            return "less-newline" if ends_nl else "changed"
+        return "changed"
+    if isinstance(e, ast.Call) and isinstance(e.func, ast.Attribute) and isinstance(e.func.value, ast.Name) and e.func.value.id == param:
+        m = e.func.attr
+        if m in ("rstrip", "removesuffix") and len(e.args) == 1 and isinstance(e.args[0], ast.Constant) and e.args[0].value in ("\n", "\r\n"):
+            # rstrip('\n') removes every trailing newline; a title is one line, so at most one
+            return "less-newline"
+        if m in _CHANGING:
+            return "changed"
+    if any(isinstance(x, ast.Call) and isinstance(x.func, ast.Attribute) and x.func.attr in _CHANGING for x in ast.walk(e)):
+        return "changed"
+    return "?"
+
+
+def r13_6(ctx: Ctx, rule: str = "R13.6"):
+    st = ctx.func("GroFile.comment@set")
+    param = [p_ for p_ in st.params if p_ != "self"][0]
+    n = 0
+    for p in enum_paths(st.node.body):
+        if p.end == "raise":
+            continue
+        cur: ast.AST = ast.Name(param, ast.Load())
+        kind = "same"
+        stored = None
+        # walk the path in order: tests seen so far guard later statements
+        for s_ in p.stmts():
+            if isinstance(s_, ast.Assign) and len(s_.targets) == 1:
+                tg = s_.targets[0]
+                if isinstance(tg, ast.Name) and tg.id == param:
+                    gs = [(t_, o_) for t_, o_ in p.conds() if t_.lineno <= s_.lineno]
+                    k2 = _title_expr_kind(s_.value, param, gs)
+                    kind = k2 if kind in ("same",) else ("changed" if k2 == "changed" or kind == "changed" else ("?" if "?" in (k2, kind) else kind))
+                elif attr_chain(tg) and attr_chain(tg).startswith("self."):
+                    gs = [(t_, o_) for t_, o_ in p.conds() if t_.lineno <= s_.lineno]
+                    k2 = _title_expr_kind(s_.value, param, gs)
+                    stored = (s_, kind if k2 == "same" else (k2 if kind == "same" else ("changed" if "changed" in (k2, kind) else "?")))
+        if stored is None:
+            continue
+        n += 1
+        s_, k_ = stored
+        if k_ == "?":
+            ctx.ob(rule, st, s_, True, "stored title expression not recognised", undecided=True, node=s_)
+        else:
+            ctx.ob(rule, st, "path [%s] stores %s" % (p.describe()[:120], norm(s_.value)), k_ in ("same", "less-newline"),
+                   "the title stored is the text given, less at most its line terminator (which the header writer adds "
+                   "back)" + ("" if k_ != "changed" else " -- the stored text differs from the one given for some titles "
+                              "(leading/trailing blanks, case, ...)"), node=s_)
+    ctx.floor(rule, n, 1, "paths of the title setter that store a title")
+    # header writer: the title is written as it is, followed by a newline iff it does not end with one
+    setup = ctx.func("GroFile._setup_write_file")
+    from ..pat import find as pfind
+    w = pfind(setup.node, "self._file.write(V_c)")
+    okw = False
+    for node, b in w:
+        v = b["V_c"]
+        if pfind(setup.node, "%s = self.comment" % v):
+            nl = [n_ for n_ in walk_no_nested(setup.node) if isinstance(n_, ast.If)
+                  and canon_test(n_.test)[0] == ctext("%s[-1] == '\\n'" % v)[0]]
+            for n_ in nl:
+                ct_, when_t, when_f = branches(n_)
+                pol = ctext("%s[-1] == '\\n'" % v)[1]
+                no_nl = when_f if pol else when_t
+                has_nl = when_t if pol else when_f
+                okw = any(isinstance(x, ast.Expr) and norm(x.value).replace('"', "'") == "self._file.write('\\n')" for x in no_nl) \
+                    and not any(isinstance(x, ast.Expr) and isinstance(x.value, ast.Call) and call_name(x.value) == "write" for x in has_nl)
+    ctx.ob(rule, setup, w[0][0] if w else "title write", okw,
+           "the header writer emits the stored title unchanged and terminates it with exactly one newline", node=w[0][0] if w else setup.node)
+    # reader: the title is the first line as read
+    load = ctx.func("GroFile._load_and_verify")
+    rd = [s_ for s_ in walk_no_nested(load.node) if isinstance(s_, ast.Assign) and attr_chain(s_.targets[0]) == "self._comment"]
+    okr = bool(rd) and norm(rd[0].value) in ("self._readline()", "self._file.readline()", "self._readline().rstrip('\\n')",
+                                             "self._readline()[:-1]")
+    ctx.ob(rule, load, rd[0] if rd else "title read", okr, "the title is the first line of the file as read", node=rd[0] if rd else load.node)
+    gt = ctx.func("GroFile.comment@get")
+    rets = [r_ for r_ in walk_no_nested(gt.node) if isinstance(r_, ast.Return)]
+    okg = bool(rets) and all(norm(r_.value) in ("self._comment", "self.DEFAULT_COMMENT") for r_ in rets)
+    ctx.ob(rule, gt, "title getter returns %s" % [norm(r_.value) for r_ in rets], okg,
+           "the title handed out is the stored one (the default only when none was set)", node=gt.node)
